@@ -2615,9 +2615,7 @@ Box<ITV>::propagate_constraint_no_check(const Constraint& c) {
     = c.expression().last_nonzero(1, c_space_dim + 1);
   if (last_k == c_space_dim + 1) {
     // Constraint c is trivial: check if it is inconsistent.
-    if (c_inhomogeneous_term < 0
-        || (c_inhomogeneous_term == 0
-            && c_type != Constraint::NONSTRICT_INEQUALITY)) {
+    if (c.is_inconsistent()) {
       set_empty();
     }
     return;
